@@ -24,6 +24,11 @@ inductive Deco where
   | name (id : Str)        -- `ast.Name`
   | attr (attr : Str)      -- `ast.Attribute` : only `.attr` is inspected
   | other                  -- calls etc.
+  /-- a name (or a call of a name) that an `import` statement of the module binds: a decorator that lives
+      in ANOTHER module. The visitor treats it like any other name; `Dynamic.execModule` uses it: a
+      `functools.wraps`-style wrapper made there has the decorated function's `__module__` but the
+      decorator module's `__globals__`. -/
+  | ext (id : Str)
   deriving DecidableEq, Repr
 
 /-- `ast.get_docstring(node, clean=False)`, `node.body[0].end_lineno` and `.lineno` (1-based) -/
